@@ -7,7 +7,8 @@
 (* Judgement (the property, nothing more):                                  *)
 (*   binding      the fields fed to the decoder are CPR.tla's encoding of   *)
 (*                (L, M) -- the independent encoder;                        *)
-(*   none  =>     ~SameBand(L) \/ NearThreshold                             *)
+(*   none  =>     ~SameBand(L) \/ NearThreshold (empty on the 2^17 grid;    *)
+(*                Rlat = 87 exactly is NOT exempt: NL(+-87) = 2)            *)
 (*   some  =>     err_mm <= 10 000 (ruler, trusted) and, on the exact f64,  *)
 (*                -90 <= lat <= 90 and -180 <= lon < 180;                   *)
 (*                (at a NearThreshold point a float encoder and the decoder *)
@@ -45,6 +46,9 @@ VARIABLE l
 Init == l = 1
 Next == /\ l <= NRec
         /\ l' = l + 1
-        /\ LET w == Why(Rec[l]) IN IF w = "" THEN TRUE ELSE PrintT(<<"REJECT", l, w>>)
+        /\ LET w == Why(Rec[l])
+           IN  IF w = "" THEN TRUE
+               ELSE PrintT(<<"REJECT", l, IF w # "binding" /\ Rlat87("air", 0, Rec[l].L)
+                                          THEN "nl_87_exact" ELSE w, w>>)
 Spec == Init /\ [][Next]_l
 =============================================================================
